@@ -154,8 +154,8 @@ def DragModelMultiBC(bc_points: List[BCPoint],
                                      [x.Mach for x in bc_points],
                                      [x.BC / bc for x in bc_points])
 
-    for i, point in enumerate(drag_table):
-        point.CD = point.CD / bc_interp[i]
+    # build new points: the caller's DragDataPoints (possibly shared with another model) stay untouched
+    drag_table = [DragDataPoint(point.Mach, point.CD / bc_interp[i]) for i, point in enumerate(drag_table)]
     return DragModel(bc, drag_table, weight, diameter, length)
 
 
